@@ -4,7 +4,7 @@
    Engine/E2*.v.  [reachable s] quantifies over every finite action list from the empty ledger: any number of requests
    sharing a reference, any interleaving of their reservation / store lookup / execution / append / wait steps with
    the persistence of a competitor, any outcome of the competitor, crashes and store failures at every point. *)
-From FL Require Import Engine.Model Engine.Spec Engine.E2Base Engine.E2Main Engine.E2Variants.
+From FL Require Import Engine.Model Engine.Spec Engine.E2Base Engine.E2Step Engine.E2Main Engine.E2Variants Engine.E2ReadFail.
 
 (* at most one entry on disk carries a given non-empty reference *)
 Theorem C11_unique : forall s, reachable s -> ref_once (persisted s).
@@ -100,3 +100,91 @@ Example C11_cancel_example :
     count_where (fun e => N.eqb (e_ref e) 9) (persisted s) = 1 /\
     v_iks s = [] /\ v_refs s = [] /\ v_locks s = [] /\ v_queue s = [].
 Proof. exact e2_cancel_then_retry. Qed.
+
+(* ---- transient store read failures (AResumeReadFail) ----------------------------------------------------------------- *)
+(* [ref_hold] (Engine/E2Step.v): the pcs at which a request holds its reference, from [PRefTaken] on.  Of the pcs at
+   which a read can fail, [PRefTaken], [PRefLookup false] and [PLocked] hold it; [PRevTaken], [PIkTaken] and
+   [PIkLookup None] do not (the reference has not been taken yet).
+   The request answers an error and its reference leaves the table exactly when it holds it at that pc; nothing is
+   written.  In particular a failing KEY lookup ([PIkTaken]) leaves the reference table as it is. *)
+Theorem C11_read_failed_releases_ref : forall s t s', reachable s -> step s (AResumeReadFail t) = Some s' ->
+  exists th th', get_thread (threads s) t = Some th /\ get_thread (threads s') t = Some th' /\
+    persisted s' = persisted s /\ inflight s' = inflight s /\
+    ((exists err, t_resp th' = Some (RErr err)) ->
+       v_refs s' = (if ref_hold (t_pc th) && negb (N.eqb (rq_ref (t_req th)) 0)
+                    then remove_N (rq_ref (t_req th)) (v_refs s) else v_refs s)) /\
+    (t_resp th' = None -> v_refs s' = v_refs s) /\
+    (t_pc th = PIkTaken -> v_refs s' = v_refs s).
+Proof. exact e2_read_failed_releases_ref. Qed.
+Print Assumptions C11_read_failed_releases_ref.
+
+(* sound in a reachable state: the step adds no entry; a request that holds its reference held it ITSELF, afterwards the
+   reference is free and no request holds it; when the reference lookup had been made and had MISSED ([ref_miss]:
+   [PRefLookup false], [PLocked]) no entry on disk or in flight carries the reference.  At [PRefTaken] the lookup has
+   NOT been made (the reference may be on disk: the request would have been refused with a conflict); it writes nothing.
+   A request that does not hold its reference leaves the table untouched. *)
+Theorem C11_read_failed_ref_fresh : forall s t s', reachable s -> step s (AResumeReadFail t) = Some s' ->
+  exists th th', get_thread (threads s) t = Some th /\ get_thread (threads s') t = Some th' /\
+    persisted s' ++ inflight s' = persisted s ++ inflight s /\
+    ((exists err, t_resp th' = Some (RErr err)) ->
+      (rq_ref (t_req th) <> 0%N -> ref_hold (t_pc th) = true ->
+        In (rq_ref (t_req th)) (v_refs s) /\ ~ In (rq_ref (t_req th)) (v_refs s') /\
+        (forall t2 th2, get_thread (threads s') t2 = Some th2 -> is_tx_kind (rq_kind (t_req th2)) = true ->
+                        rq_ref (t_req th2) = rq_ref (t_req th) -> ref_hold (t_pc th2) = false) /\
+        (ref_miss (t_pc th) = true -> forall x, In x (persisted s' ++ inflight s') -> e_ref x <> rq_ref (t_req th))) /\
+      (ref_hold (t_pc th) = false -> v_refs s' = v_refs s)).
+Proof. exact e2_read_failed_ref_fresh. Qed.
+Print Assumptions C11_read_failed_ref_fresh.
+
+(* nobody else's reference is touched (the full statement for the three tables is [C07_read_fail_other_reservations_untouched]) *)
+Theorem C11_read_fail_other_refs_untouched : forall s t s', reachable s -> step s (AResumeReadFail t) = Some s' ->
+  exists th, get_thread (threads s) t = Some th /\
+    (forall k, (In k (v_iks s') -> In k (v_iks s)) /\ (In k (v_iks s) -> k <> rq_ik (t_req th) -> In k (v_iks s'))) /\
+    (forall k, (In k (v_refs s') -> In k (v_refs s)) /\ (In k (v_refs s) -> k <> rq_ref (t_req th) -> In k (v_refs s'))) /\
+    (forall id, (In id (v_revs s') -> In id (v_revs s)) /\
+                (In id (v_revs s) -> ~ (rq_kind (t_req th) = KRevert /\ id = rq_revert (t_req th)) -> In id (v_revs s'))) /\
+    (forall t2 th2, t2 <> t -> get_thread (threads s) t2 = Some th2 ->
+       (rq_ik (t_req th2) <> 0%N -> ik_hold (t_pc th2) = true -> In (rq_ik (t_req th2)) (v_iks s')) /\
+       (is_tx_kind (rq_kind (t_req th2)) = true -> rq_ref (t_req th2) <> 0%N -> ref_hold (t_pc th2) = true ->
+          In (rq_ref (t_req th2)) (v_refs s')) /\
+       (rq_kind (t_req th2) = KRevert -> rev_hold (t_pc th2) = true -> In (rq_revert (t_req th2)) (v_revs s'))).
+Proof. exact e2_read_fail_others_untouched. Qed.
+Print Assumptions C11_read_fail_other_refs_untouched.
+
+(* non-vacuity.  (1) the reference lookup of request 2 (key 7, reference 9) fails at [PRefTaken] while request 1
+   (reference 6) is in flight: [RErr EStoreRead], key and reference of 2 given back, reference 6 stays reserved,
+   nothing written; (2) after such a failure a NEW request 3 with reference 9 commits: exactly one entry carries
+   reference 9; (3) reference 9 is on disk and the lookup of a later request with reference 9 fails: [RErr EStoreRead],
+   nothing written, still one entry *)
+Example C11_read_failure_retry :
+  (exists s0 th0 s th2,
+     run init (e2_rf_fund ++ [AStart 1 e2_pay06] ++ e2_rs 1 3 ++ [AStart 2 e2_pay79] ++ e2_rs 2 2) = Some s0 /\
+     get_thread (threads s0) 2 = Some th0 /\ t_pc th0 = PRefTaken /\ v_iks s0 = [7%N] /\ v_refs s0 = [9%N; 6%N] /\
+     run init (e2_rf_fund ++ [AStart 1 e2_pay06] ++ e2_rs 1 3 ++ [AStart 2 e2_pay79] ++ e2_rs 2 2 ++ [AResumeReadFail 2]) = Some s /\
+     get_thread (threads s) 2 = Some th2 /\ t_resp th2 = Some (RErr EStoreRead) /\ t_entry th2 = None /\
+     v_iks s = [] /\ v_refs s = [6%N] /\ persisted s = persisted s0 /\ v_pending s = [] /\ v_batch s = None) /\
+  (exists s th2 th3,
+     run init (e2_rf_fund ++ [AStart 2 e2_pay79; AResume 2; AResume 2; AResumeReadFail 2] ++ e2_full79 3) = Some s /\
+     get_thread (threads s) 2 = Some th2 /\ get_thread (threads s) 3 = Some th3 /\ t_req th3 = t_req th2 /\
+     rq_ref (t_req th2) = 9%N /\ t_resp th2 = Some (RErr EStoreRead) /\ t_resp th3 = Some (ROk (Some 1)) /\
+     map (fun e => (e_owner e, e_ik e, e_ref e)) (persisted s) = [(0, 0%N, 0%N); (3, 7%N, 9%N)] /\
+     count_where (fun e => N.eqb (e_ref e) 9) (persisted s) = 1 /\ v_iks s = [] /\ v_refs s = []) /\
+  (exists s th2,
+     run init (e2_rf_fund ++ e2_full79 1 ++ [AStart 2 e2_pay09; AResumeReadFail 2]) = Some s /\
+     get_thread (threads s) 2 = Some th2 /\ t_resp th2 = Some (RErr EStoreRead) /\ t_entry th2 = None /\
+     count_where (fun e => N.eqb (e_ref e) 9) (persisted s) = 1 /\ length (persisted s) = 2 /\
+     v_refs s = [] /\ v_pending s = [] /\ v_batch s = None).
+Proof. exact e2_read_failure_ref. Qed.
+
+(* the KEY lookup of request 2 (key 7, reference 9) fails at [PIkTaken] while request 1 holds reference 9: request 2
+   has not taken the reference and does not release it -- the reservation of request 1 is untouched *)
+Example C11_read_failure_key_lookup_keeps_ref :
+  exists s0 th1 th0 s th2,
+    run init (e2_rf_fund ++ [AStart 1 e2_pay09] ++ e2_rs 1 3 ++ [AStart 2 e2_pay79]) = Some s0 /\
+    get_thread (threads s0) 1 = Some th1 /\ t_pc th1 = PLocked /\ rq_ref (t_req th1) = 9%N /\
+    get_thread (threads s0) 2 = Some th0 /\ t_pc th0 = PIkTaken /\ rq_ref (t_req th0) = 9%N /\
+    v_iks s0 = [7%N] /\ v_refs s0 = [9%N] /\
+    run init (e2_rf_fund ++ [AStart 1 e2_pay09] ++ e2_rs 1 3 ++ [AStart 2 e2_pay79; AResumeReadFail 2]) = Some s /\
+    get_thread (threads s) 2 = Some th2 /\ t_resp th2 = Some (RErr EStoreRead) /\
+    v_iks s = [] /\ v_refs s = [9%N].
+Proof. exact e2_read_failure_key_keeps_ref. Qed.
